@@ -368,6 +368,15 @@ def run(case, obs):
         obs.mode("certificate_only")
         obs.nontrivial = True
 
+    if (len(arcs3) + 3 * s + t) % 29 == 0:
+        # source and sink coincide: nothing separates a node from itself, so the value is 0 and the call has to end
+        r0 = call(obs, _flow.max_flow, _graph(case), fresh(lab[s]), fresh(lab[s]), what="max_flow[source=sink]", budget=3_000_000)
+        if not is_crash(r0):
+            obs.event("mf.source-equals-sink")
+            sol0 = r0.solution if isinstance(r0.solution, dict) else {}
+            pushed = [f for f in sol0.values() if not isinstance(f, dict)] + [f for d in sol0.values() if isinstance(d, dict) for f in d.values()]
+            if r0.objective != 0 or any(f != 0 for f in pushed):
+                obs.violate("flow.source-equals-sink", f"max_flow(g, x, x) reports value {r0.objective!r} with flow {short(r0.solution, 200)}")
     res = call(obs, _flow.max_flow, _graph(case), fresh(lab[s]), fresh(lab[t]), what="max_flow", budget=3_000_000)
     if is_crash(res):
         obs.outcome("crash")
